@@ -260,7 +260,8 @@ class Args:
         try:
             return value.asBoolean()
         except CklRuntimeError as e:
-            e.pos = self.pos
+            if e.pos is None:
+                e.pos = self.pos
             raise
 
     def getAsNode(self, name):
@@ -268,7 +269,8 @@ class Args:
         try:
             return value.asNode()
         except CklRuntimeError as e:
-            e.pos = self.pos
+            if e.pos is None:
+                e.pos = self.pos
             raise
 
     def getAsDate(self, name):
@@ -276,7 +278,8 @@ class Args:
         try:
             return value.asDate()
         except CklRuntimeError as e:
-            e.pos = self.pos
+            if e.pos is None:
+                e.pos = self.pos
             raise
 
     def getAsString(self, name):
@@ -284,7 +287,8 @@ class Args:
         try:
             return value.asString()
         except CklRuntimeError as e:
-            e.pos = self.pos
+            if e.pos is None:
+                e.pos = self.pos
             raise
 
     def getAsPattern(self, name, defaultValue=None):
@@ -294,7 +298,8 @@ class Args:
         try:
             return value.asPattern()
         except CklRuntimeError as e:
-            e.pos = self.pos
+            if e.pos is None:
+                e.pos = self.pos
             raise
 
     def getAsList(self, name):
@@ -302,7 +307,8 @@ class Args:
         try:
             return value.asList()
         except CklRuntimeError as e:
-            e.pos = self.pos
+            if e.pos is None:
+                e.pos = self.pos
             raise
 
     def getAsSet(self, name):
@@ -310,7 +316,8 @@ class Args:
         try:
             return value.asSet()
         except CklRuntimeError as e:
-            e.pos = self.pos
+            if e.pos is None:
+                e.pos = self.pos
             raise
 
     def getAsObject(self, name):
@@ -318,7 +325,8 @@ class Args:
         try:
             return value.asObject()
         except CklRuntimeError as e:
-            e.pos = self.pos
+            if e.pos is None:
+                e.pos = self.pos
             raise
 
     def getAsMap(self, name):
@@ -326,7 +334,8 @@ class Args:
         try:
             return value.asMap()
         except CklRuntimeError as e:
-            e.pos = self.pos
+            if e.pos is None:
+                e.pos = self.pos
             raise
 
     def getAsInt(self, name):
@@ -334,7 +343,8 @@ class Args:
         try:
             return value.asInt()
         except CklRuntimeError as e:
-            e.pos = self.pos
+            if e.pos is None:
+                e.pos = self.pos
             raise
 
     def getAsDecimal(self, name):
@@ -342,7 +352,8 @@ class Args:
         try:
             return value.asDecimal()
         except CklRuntimeError as e:
-            e.pos = self.pos
+            if e.pos is None:
+                e.pos = self.pos
             raise
 
 
